@@ -3,6 +3,7 @@ Lemmas/ScanIndex.lean — the flush-on-PKGNAME loop of ScanIndex::from_reader is
 segmentation of the non-blank lines: cut before every line that begins `PKGNAME=`.
 -/
 import PkgsrcVerif.Model.PkgDB
+import PkgsrcVerif.Spec.ScanIndex
 namespace L
 open M
 
@@ -162,5 +163,80 @@ theorem segments_heads (buf : List Str) (ls : List Str) :
           · have := ih [l] seg (by rw [hseg]; simpa using hs)
             exact this
       · exact ih (buf ++ [l]) seg hs
+
+end L
+
+namespace L
+open M
+
+theorem splitOnceEq_spec' (l : Str) :
+    splitOnceEq l = if l.contains '=' then some (l.takeWhile (· != '='), (l.dropWhile (· != '=')).drop 1) else none := by
+  induction l with
+  | nil => simp [splitOnceEq]
+  | cons c r ih =>
+    by_cases hc : c = '='
+    · subst hc; simp [splitOnceEq, List.takeWhile_cons, List.dropWhile_cons]
+    · have h1 : (c == '=') = false := by simpa using hc
+      have h2 : (c != '=') = true := by simpa using hc
+      have h3 : (c :: r).contains '=' = r.contains '=' := by
+        simp only [List.contains_cons]
+        have : (('=' : Char) == c) = false := by simpa using fun e => hc e.symm
+        simp [this]
+      simp only [splitOnceEq, h1, Bool.false_eq_true, if_false, ih, h3, List.takeWhile_cons, List.dropWhile_cons, h2,
+        if_true]
+      split <;> simp
+
+theorem find_reverse_eq_getLast {α} (l : List α) (p : α → Bool) :
+    l.reverse.find? p = (l.filter p).getLast? := by
+  induction l with
+  | nil => rfl
+  | cons a l ih =>
+    rw [List.reverse_cons, List.find?_append, ih, List.filter_cons]
+    by_cases ha : p a = true
+    · simp only [ha, if_true, List.find?_cons, List.find?_nil]
+      cases hf : l.filter p with
+      | nil => simp
+      | cons b t =>
+        cases h : (b :: t).getLast? with
+        | none => simp at h
+        | some x => simp [h]
+    · have : p a = false := by simpa using ha
+      simp only [this, Bool.false_eq_true, if_false, List.find?_cons, List.find?_nil, Option.or_none]
+
+theorem filterMap_filter_map {α β γ} (l : List α) (f : α → Option β) (p : β → Bool) (g : β → γ) :
+    ((l.filterMap f).filter p).map g =
+      l.filterMap (fun a => (f a).bind fun b => if p b then some (g b) else none) := by
+  induction l with
+  | nil => rfl
+  | cons a l ih =>
+    simp only [List.filterMap_cons]
+    cases hf : f a with
+    | none => simp only [Option.bind_none, ih]
+    | some b =>
+      simp only [Option.bind_some, List.filter_cons]
+      by_cases hp : p b = true
+      · simp only [hp, if_true, List.map_cons, ih]
+      · have : p b = false := by simpa using hp
+        simp only [this, Bool.false_eq_true, if_false, ih]
+
+theorem filterMap_congr'' {α β} (l : List α) (f g : α → Option β) (h : ∀ a, f a = g a) :
+    l.filterMap f = l.filterMap g := by
+  have : f = g := funext h
+  rw [this]
+
+/-- **typed extraction of a scalar field**: what the deserialiser's map returns for a key is the
+    trimmed value of the last `key=value` line of the block whose trimmed key is that key -/
+theorem kv_get_eq_scalar (blk : List Str) (key : String) :
+    (keyValues blk).get key = S.scalar blk key := by
+  unfold KV.get S.scalar S.valuesOf keyValues
+  rw [find_reverse_eq_getLast, ← List.getLast?_map, filterMap_filter_map]
+  congr 1
+  apply filterMap_congr''
+  intro l
+  rw [splitOnceEq_spec']
+  by_cases hc : l.contains '=' = true
+  · simp only [hc, if_true, Option.map_some, Option.bind_some, Bool.not_true, Bool.false_eq_true, if_false]
+  · have : l.contains '=' = false := by simpa using hc
+    simp only [this, Bool.false_eq_true, if_false, Option.map_none, Option.bind_none, Bool.not_false, if_true]
 
 end L
